@@ -7,6 +7,7 @@ import (
 	"context"
 	"fmt"
 	"sort"
+	"strings"
 
 	"github.com/hyperjumptech/grule-rule-engine/ast"
 	"github.com/hyperjumptech/grule-rule-engine/builder"
@@ -32,6 +33,27 @@ func BuildInto(lib *ast.KnowledgeLibrary, name, version, text string) (err error
 	}()
 	rb := builder.NewRuleBuilder(lib)
 	err = rb.BuildRuleFromResource(name, version, pkg.NewBytesResource([]byte(text)))
+	return err, nil
+}
+
+// BuildBatch hands several texts to the builder's batch entry point (BuildRuleFromResources); the resources
+// alternate between the byte and the reader form.
+func BuildBatch(lib *ast.KnowledgeLibrary, name, version string, texts []string) (err error, panicked interface{}) {
+	defer func() {
+		if r := recover(); r != nil {
+			panicked = r
+			err = fmt.Errorf("builder panicked: %v", r)
+		}
+	}()
+	var res []pkg.Resource
+	for i, t := range texts {
+		if i%2 == 0 {
+			res = append(res, pkg.NewBytesResource([]byte(t)))
+		} else {
+			res = append(res, pkg.NewReaderResource(strings.NewReader(t)))
+		}
+	}
+	err = builder.NewRuleBuilder(lib).BuildRuleFromResources(name, version, res)
 	return err, nil
 }
 
@@ -209,9 +231,14 @@ type Recorder struct {
 	// Hook, when set, is called synchronously for each event after it has been appended; it may
 	// fill the event's State/Truth fields through the pointer.
 	Hook func(ev *Event)
+	// Mute drops events while set (a nested run on the same engine reports to the same listeners)
+	Mute bool
 }
 
 func (r *Recorder) add(ev Event) {
+	if r.Mute {
+		return
+	}
 	r.Events = append(r.Events, ev)
 	if r.Hook != nil {
 		r.Hook(&r.Events[len(r.Events)-1])
